@@ -104,6 +104,9 @@ def probes(rng, n_random):
         add("weather_mean_range " + v, INVALID)
     for v in ["0", "1", "0.5"]:
         add("weather_mean_range " + v, None)
+    for v in ["1.5", "-0.25", "10"]:
+        add("weather_mean_range %s 0" % v, INVALID)   # zero deviation: the mean is still validated
+    add("weather_mean_range 0.5 0", None)
     for a, b in [(3, 2), (2, 3), (1, 2), (2, 1)]:
         add("weather_shape %d %d" % (a, b), INVALID)
     add("weather_shape 2 2", None)
